@@ -189,6 +189,10 @@ func buildW(c wCase, r *rand.Rand) *astisub.Subtitles {
 		}
 		s.Items = append(s.Items, it)
 	}
+	// a last cue, out of order, that ends at the very instant the first one starts: the last timestamp one write
+	// renders is the first one the next write renders
+	s.Items = append(s.Items, &astisub.Item{StartAt: 500 * time.Millisecond, EndAt: time.Second, Index: 4,
+		Lines: []astisub.Line{{Items: []astisub.LineItem{{Text: "before"}}}}})
 	return s
 }
 
